@@ -145,9 +145,11 @@ def pyEqX (a b : PyVal) : Except Exn Bool :=
   else .ok (pyEq a b)
 
 /-- `a <= b` -/
-def pyLe (a b : PyVal) : Except Exn Bool := do
-  let l ← pyLt a b
-  if l then pure true else pure (pyEq a b)
+def pyLe (a b : PyVal) : Except Exn Bool :=
+  match pyLt a b with
+  | .error e => .error e
+  | .ok true => .ok true
+  | .ok false => .ok (pyEq a b)
 
 /-- number of decimal digits of a positive natural (1 for 0) -/
 def ndigits (n : Nat) : Nat := (Nat.toDigits 10 n).length
